@@ -414,7 +414,23 @@ fn c15_case(ctx: &Ctx, rep: &mut Report, rng: &mut Rng, version: Version, done: 
     if reopen_in_cycle {
         rep.count("cycles_with_reopen");
     }
+    // one case in eight: every repetition starts with a creation that fails on a store
+    // hiccup (one underlying write or seek fails) and is then repeated by the cycle; what
+    // the failed attempt had taken (a directory slot, sectors) must be reused as well
+    let failing_create: Option<u64> = if !mega && matches!(template, 0 | 7 | 8) && rng.chance(1, 2) { Some(rng.below(45)) } else { None };
+    if failing_create.is_some() {
+        rep.count("cycles_with_a_failed_first_creation");
+    }
     for r in 0..reps {
+        if let Some(k) = failing_create {
+            sess.shared.arm(vec![crate::backend::Fault { kinds: crate::backend::K_WRITE | crate::backend::K_SEEK, k, err: std::io::ErrorKind::Other, sticky: false, partial: false }]);
+            let r0 = sess.cf().create_new_stream("/cyc").map(|_| ());
+            sess.shared.disarm();
+            if r0.is_ok() {
+                // the fault was not reached: undo, so that the cycle starts as always
+                let _ = sess.cf().remove_stream("/cyc");
+            }
+        }
         for step in cycle_steps(template, &params) {
             // "Space released ... is reused by later allocations": from the second repetition
             // on, whenever a write extends the file, the FAT as stored at that moment must
